@@ -133,9 +133,10 @@ claim('C19', 'Lean 4 theorems on the accounting model of processing_loop/Summary
 claim('C14', 'Lean 4 theorems on a model of process_dt / the relative-offset matcher / -a -b resolution over tables regenerated from the source (76 patterns, regex pieces and anchors, 392 zones); H2 evaluation-mode correspondence (70k values per run) and --summary oracle',
       "Machine-checked: relative forms [@]?[+-](N u)+ resolve to sign x sum of units (any order; repeated unit: last wins), '@' bounds resolve relative to the other bound exactly as the explicit "
       "instant would, both-'@' and after>before are rejected, ambiguous zone names are rejected, with the anchors now present in the source every string outside the relative grammar is refused "
-      "by the relative branch (the unanchored counter-model documents the defect repaired by this work); every one of the 76 pattern rows resolves its representative value to the documented "
-      "instant through its own row and through first-match (decided over the whole table), per-specifier round trips are proved. The general all-values statement per row is NOT proved "
-      "(staged). '+epoch' is only correct at --tz-offset +00:00 (F21, proved). Tie: the real process_dt/string_wdhms_to_duration/cli_process_tz_offset are evaluated in-process (H2) on the "
+      "by the relative branch (the unanchored counter-model documents the defect repaired by this work); every one of the 76 pattern rows resolves EVERY value of its grammar (year 0000-9999, valid date, time incl. :60, any %3f/%6f digits, numeric zones in all accepted spellings, every unambiguous zone name, any %s up to "
+      "8210266790399) to the instant computed from the calendar arithmetic, for every --tz-offset inside +-24h (C14_abs, all 76 rows, unfolding the generated rows and zone table); explicit zone wins, zone-less is read at "
+      "--tz-offset, bare date = 00:00:00; for the 11 zone-less rows of the help text no earlier row reads any of their values, so process_dt as a whole returns that instant (C14_no_steal); for the other 65 rows first-match "
+      "agreement is decided on representatives only (partial). '+epoch' is only correct at --tz-offset +00:00 (F21, proved). Tie: the real process_dt/string_wdhms_to_duration/cli_process_tz_offset are evaluated in-process (H2) on the "
       "enumerated grammar plus near-miss mutants and compared with the model; 354 real runs compare --summary's resolved bounds and exit status with resolveAB.",
       TB + "chrono parse_from_str and the regex crate are mirrored by hand for the specifiers/constructs that occur (validated by the 70k-value correspondence).",
       "DESIGN.md §6 C14")
